@@ -13,7 +13,7 @@ EXTENDS Naturals, Integers, Sequences, BigZ
 
 FunsR == {"gmp_randinit_default", "gmp_randinit_mt", "gmp_randinit_lc_2exp", "gmp_randinit_lc_2exp_size", "gmp_randinit_set",
           "gmp_randclear", "gmp_randseed", "gmp_randseed_ui", "gmp_urandomb_ui", "gmp_urandomm_ui",
-          "mpz_urandomb", "mpz_urandomm", "mpz_rrandomb", "mpf_urandomb", "mpf_rrandomb"}
+          "mpz_urandomb", "mpz_urandomm", "mpz_rrandomb", "mpf_urandomb", "mpf_rrandomb", "mpf_random2"}
 LOCAL I(h) == ZToInt(h)
 LOCAL Bool(r, c) == (r # 0) = c
 
@@ -29,6 +29,11 @@ PostR(f, A, O, r, x) ==
            /\ O[1].sz >= 0 /\ O[1].exp <= 0
      [] f = "mpf_rrandomb" ->      \* at most |max_size| limbs, negative when max_size is, exponent within -exp..exp limbs
            LET ms == I(A[3])  ex == IF I(A[4]) < 0 THEN -I(A[4]) ELSE I(A[4])  asz == IF O[1].sz < 0 THEN -O[1].sz ELSE O[1].sz IN
+           /\ asz <= (IF ms < 0 THEN -ms ELSE ms)
+           /\ (O[1].sz # 0 => (O[1].sz < 0) = (ms < 0))
+           /\ -ex <= O[1].exp /\ O[1].exp <= ex
+     [] f = "mpf_random2" ->       \* obsolete form of mpf_rrandomb drawing from the library's global state: same contract (manual: "at most max_size limbs ... exponent in -exp..exp ... negative max_size")
+           LET ms == I(A[2])  ex == IF I(A[3]) < 0 THEN -I(A[3]) ELSE I(A[3])  asz == IF O[1].sz < 0 THEN -O[1].sz ELSE O[1].sz IN
            /\ asz <= (IF ms < 0 THEN -ms ELSE ms)
            /\ (O[1].sz # 0 => (O[1].sz < 0) = (ms < 0))
            /\ -ex <= O[1].exp /\ O[1].exp <= ex
